@@ -853,7 +853,7 @@ def outcome_wire(events, ex):
 def tags_ok(script):
     for items in [r[1] for r in script['reads'] if r[0] == 't'] + [script['close']]:
         for it in items:
-            if it[0] in ('st', 'se') and it[1].startswith('{'):
+            if it[0] in ('st', 'se') and it[1][:1] in ('{', '}'):
                 return False
     return True
 
@@ -1087,6 +1087,89 @@ def xml_item_wire(it):
     if k == 'raise':
         return [Atom('RAISE'), it[1], B(it[2] if len(it) > 2 else is_exception_name(it[1]))]
     raise ValueError(it)
+
+
+def callbacks_to_forest(items):
+    """the forest Expat walked, rebuilt from its handler calls by the harness's own stack machine
+    (wire form of Genshi.Parse.XNode); None when the calls are not the traversal of a forest:
+    namespace declarations directly before their element and undone directly after it in reverse
+    order, elements balanced, CDATA sections closed, nothing but character data inside them"""
+    root = []
+    kids = [root]
+    open_elems = []
+    pending = []
+    expect_ens = []
+    o = lambda x: N if x is None else x
+    i, n = 0, len(items)
+    while i < n:
+        it = items[i]
+        k = it[0]
+        if expect_ens:
+            if k != 'ens' or it[1] != expect_ens[0]:
+                return None
+            expect_ens.pop(0)
+        elif k == 'ns':
+            pending.append([o(it[1]), o(it[2])])
+        elif pending and k != 'se':
+            return None
+        elif k == 'se':
+            node = [Atom('E'), it[1], [[a, v] for a, v in it[2]], pending, []]
+            kids[-1].append(node)
+            kids.append(node[4])
+            open_elems.append((it[1], pending))
+            pending = []
+        elif k == 'ee':
+            if not open_elems or open_elems[-1][0] != it[1]:
+                return None
+            _, decls = open_elems.pop()
+            kids.pop()
+            expect_ens = [None if d[0] is N else d[0] for d in reversed(decls)]
+        elif k == 'cd':
+            pieces = []
+            while i < n and items[i][0] == 'cd':
+                pieces.append(items[i][1])
+                i += 1
+            kids[-1].append([Atom('CH')] + pieces)
+            continue
+        elif k == 'sc':
+            pieces = []
+            i += 1
+            while i < n and items[i][0] == 'cd':
+                pieces.append(items[i][1])
+                i += 1
+            if i >= n or items[i][0] != 'ec':
+                return None
+            kids[-1].append([Atom('CDS')] + pieces)
+        elif k == 'cm':
+            kids[-1].append([Atom('CM'), it[1]])
+        elif k == 'pi':
+            kids[-1].append([Atom('PI'), it[1], it[2]])
+        elif k == 'xd':
+            kids[-1].append([Atom('XD'), it[1], o(it[2]), Atom(str(int(it[3])))])
+        elif k == 'dt':
+            kids[-1].append([Atom('DT'), it[1], o(it[2]), o(it[3]), B(it[4])])
+        elif k == 'df':
+            if it[1].startswith('&'):
+                return None
+            kids[-1].append([Atom('IGN'), it[1], Atom(str(it[2])), Atom(str(it[3]))])
+        else:
+            return None
+        i += 1
+    if open_elems or pending or expect_ens:
+        return None
+    return root
+
+
+def xml_tree_line(script):
+    """request asking the model whether the recorded calls are the traversal `callbacksList` of the
+    rebuilt forest (the hypothesis of xml_layer_tree); None when they are not even a forest"""
+    if has_surrogate(script):
+        return None
+    items = [it for r in script['reads'] if r[0] == 't' for it in r[1]] + list(script['close'])
+    forest = callbacks_to_forest(items)
+    if forest is None:
+        return False
+    return proto.line(Atom('C07'), Atom('xmltree'), forest, [xml_item_wire(i) for i in items])
 
 
 def xml_line(script):
@@ -1515,6 +1598,13 @@ def model_jobs(case):
         for mk in plans:
             script, ev, ex, modelled = record_xml(mk, encoding='utf-8')
             jobs.append(('xml-recorded', script, xml_line(script) if modelled else None, outcome_wire(ev, ex), True))
+            if ex is None and modelled:
+                # Expat's side of xml_layer_tree: for a document it accepts, its calls are a forest traversal
+                tl = xml_tree_line(script)
+                if tl is False:
+                    jobs.append(('expat-contract', script, None, [[], Atom('ok')], False))
+                elif tl is not None:
+                    jobs.append(('expat-contract', script, tl, Atom('T'), True))
     elif k == 'syn-xml':
         script = case['script']
         ev, ex = run_syn_xml(script)
@@ -1551,7 +1641,14 @@ def process(cases, res, do_oracle=True):
             script_stats(res, stream, script)
             if not tok:
                 res.count('tokenizer-contract-broken')
-                res.failures.append(fail(c, 'tokenizer contract: html.parser passed a tag name beginning with "{" to handle_starttag', 'no such tag', trim(script)))
+                what = ('tokenizer contract: Expat\'s handler calls for a document it accepted are not the traversal of a forest'
+                        if stream == 'expat-contract' else
+                        'tokenizer contract: html.parser passed a tag name beginning with a brace to handle_starttag')
+                res.failures.append(fail(c, what, 'contract holds', trim(script)))
+            if stream == 'expat-contract':
+                if line is not None:
+                    pending.append((stream, c, line, real))
+                continue
             if real[1] != 'ok':
                 res.count('%s:outcome:%s' % (stream, real[1][0]))
             else:
